@@ -151,6 +151,9 @@ class Prop(PropBase):
             for seq in (["ti 2 65 66"], ["ti 2 65 66", "ti 2 65 66"], ["me", "md"], ["sz 9 4", "mv 2 2", "we 5 65 0 0 0 1 0 0 0 9 0 0 1 24 27 25", "mv 3 2"],
                         ["we 18 226 148 129 0 9 0 0 0 9 0 0 22 24 27 25", "we 5 66 0 0 0 9 0 0 0 9 0 0 22 24 27 25"]):
                 out.append(Case("M %d %d %d ; %s" % (bits + (" ; ".join(seq),)), sweep="shared-manipulator-objects", cfgs=tg.configs(rng, 1)))
+        # a large written canvas destroyed, a new one constructed (it starts blank): tie only here, judged under C03 / C04
+        for line in sg.large_canvas_replaced(rng, 8 if tier == "quick" else 80):
+            out.append(Case(line, tag="large-canvas-replaced", oracle=False))
         # ONE canvas drawn by two or three screens (each with its own terminal) in turn - kind `K`
         from .C03 import CFGS_NOIMM
         for i in range(200 if tier == "quick" else 4000):
